@@ -5,7 +5,7 @@ import zlib
 
 import numpy as np
 
-VALUATIONS = ("ramp", "small", "edge")
+VALUATIONS = ("ramp", "small", "edge", "wide")
 SPECIAL = "special"
 
 
@@ -54,6 +54,18 @@ def make_input(name: str, shape, dtype, valuation: str) -> np.ndarray:
         else:
             pal = np.array([0.0, 1.0, -1.0, 1j, -1j, 2.5 - 0.5j, 1e-3 + 1e3j])
             v = pal[(i + k) % len(pal)]
+    elif valuation == "wide":
+        # values that use the whole mantissa / more than 24 bits, so that an intermediate
+        # computed in a narrower type than declared is visible
+        if dtype.kind == "b":
+            v = ((i * 5 + k) % 2) == 0
+        elif dtype.kind in "iu":
+            big = 16777217 + 3 * i + (k % 7)
+            v = big * np.where((i + k) % 2 == 0, 1, -1) if dtype.kind == "i" else big
+        elif dtype.kind == "f":
+            v = ((i + 1 + (k % 5)) * np.where((i + k) % 2 == 0, 1, -1)) / 7.0 + 1.0 / 3.0
+        else:
+            v = ((i + 1 + (k % 5)) / 7.0 + 1.0 / 3.0) + 1j * ((i + 2) / 11.0 - 0.3)
     elif valuation == "special":
         if dtype.kind == "f":
             pal = np.array([1.0, np.nan, -2.0, np.inf, 0.5, -np.inf, 3.0])
